@@ -11,11 +11,11 @@ use crate::json::J;
 use crate::model::*;
 use crate::rng::Rng;
 
-pub const RULE: &str = "case = (DNA count matrix of width 1..40 with arbitrary counts incl. wildcard counts, scalar pseudocount, strand-symmetric background, a DNA sequence with wildcards; plus arbitrary finite / -inf scoring matrices with a finite wildcard column). Checks: rc(rc(x)) == x cell-exact for count, frequency, weight and scoring matrices; rc(x)[i][s] == x[M-1-i][complement(s)] cell-exact; rc commutes with to_freq / to_weight / to_scoring under the symmetric background (relative 1e-6: the row sum is taken in another order); rc(pssm) scores position L-M-i of rc(sequence) as pssm scores position i of the sequence (within the f32 summation bound); the wildcard column maps to itself. Non-trivial = width >= 2 and a non-palindromic matrix; distinct = distinct (matrix, sequence).";
+pub const RULE: &str = "case = (DNA count matrix of width 1..40 with arbitrary counts incl. wildcard counts, scalar pseudocount, strand-symmetric background, a DNA sequence with wildcards; plus arbitrary finite / -inf scoring matrices with a finite wildcard column). Checks: rc(rc(x)) == x cell-exact for count, frequency, weight and scoring matrices; rc(x)[i][s] == x[M-1-i][complement(s)] cell-exact; rc commutes with to_freq / to_weight / to_scoring under the symmetric background (relative 1e-6: the row sum is taken in another order); rc(pssm) scores position L-M-i of rc(sequence) as pssm scores position i of the sequence (within the f32 summation bound), through the full scan and through score_position on striped sequences in any look-ahead state (none, built for a shorter motif, more than needed; windows crossing a column boundary are sampled on purpose); the wildcard column maps to itself. Non-trivial = width >= 2 and a non-palindromic matrix; distinct = distinct (matrix, sequence).";
 
 pub const REQUIRED: &[&str] = &[
     "type.count", "type.frequency", "type.weight", "type.scoring", "check.involution", "check.definition",
-    "check.commutes", "check.mirrored_scores", "class.finite_wildcard_column", "class.neg_inf_cells",
+    "check.commutes", "check.mirrored_scores", "check.mirrored_score_position", "score_position.no_lookahead_rows", "score_position.too_few_lookahead_rows", "score_position.window_crosses_column", "class.finite_wildcard_column", "class.neg_inf_cells",
     "class.sequence_with_wildcards", "class.width=1", "class.background_with_wildcard_frequency",
 ];
 
@@ -247,6 +247,65 @@ fn run_case(case: u64, rng: &mut Rng, rep: &mut Report) {
                 );
                 return;
             }
+        }
+        // the same mirror through the per-position entry point, on both strands, with the striped
+        // sequences in any look-ahead state (none / built for a shorter motif / more than needed):
+        // score_position indexes the sequence and does not need look-ahead rows
+        {
+            let fenc = encoded::<Dna>(&seq);
+            let mut fwd: StripedSequence<Dna, U32> = stripe_generic(&fenc);
+            let mut rev: StripedSequence<Dna, U32> = stripe_generic(&enc);
+            for sq in [&mut fwd, &mut rev] {
+                match rng.below(3) {
+                    0 => rep.cover("score_position.no_lookahead_rows"),
+                    1 if w >= 3 => {
+                        sq.configure_wrap(rng.range(1, w - 2));
+                        rep.cover("score_position.too_few_lookahead_rows");
+                    }
+                    _ => sq.configure_wrap(w - 1 + rng.range(0, 12)),
+                }
+            }
+            let f_rows = fwd.matrix().rows() - fwd.wrap();
+            for k in 0..12usize {
+                let mut i = rng.below(exact.len());
+                if k % 2 == 1 {
+                    // a window that crosses a column boundary of the forward (or reverse) striping
+                    let rws = if k % 4 == 1 { f_rows } else { rev.matrix().rows() - rev.wrap() };
+                    let cand = (rng.below(32) + 1) * rws;
+                    let back = rng.below(w.min(rws.max(1))) + 1;
+                    if cand >= back {
+                        let p = cand - back;
+                        let p = if k % 4 == 1 { p } else { (l - w).wrapping_sub(p) };
+                        if p < exact.len() {
+                            i = p;
+                            rep.cover("score_position.window_crosses_column");
+                        }
+                    }
+                }
+                let r = guard(|| (pssm.score_position(&fwd, i), rcp.score_position(&rev, l - w - i)));
+                let (a, b) = match r {
+                    Ok(x) => x,
+                    Err(p) => {
+                        fail(rep, &format!("c10.panic:{}", panic_site(&p)), format!("panic in score_position: {}", p), J::Null);
+                        return;
+                    }
+                };
+                let (ex, abs) = exact[i];
+                let okv = |g: f32| if ex == f64::NEG_INFINITY { g == f32::NEG_INFINITY } else { ((g as f64) - ex).abs() <= tol(w, abs) };
+                if !okv(a) || !okv(b) {
+                    fail(
+                        rep,
+                        "c10.mirror",
+                        format!(
+                            "score_position: pssm at {} of the sequence gives {}, rc(pssm) at {} of rc(sequence) gives {}, exact {} (look-ahead rows: {} / {}, width {})",
+                            i, a, l - w - i, b, ex, fwd.wrap(), rev.wrap(), w
+                        ),
+                        J::obj().set("sequence", J::s(fmt_seq_short::<Dna>(&seq))),
+                    );
+                    return;
+                }
+            }
+            rep.cover("check.mirrored_score_position");
         }
     }
     // non-trivial: width >= 2 and non-palindromic
